@@ -63,3 +63,8 @@ Definition ex_lines1 : list str := [
 Definition ex_csa_in : csa_dict :=
   [ (ex_k_dFlip, CItems [PInt 3%Z; PInt 4%Z]);
     (K_MrProtocol, CItem (PStr (render_prot ex_before ex_hdr ex_lines1 ex_after))) ].
+
+(* k = <q>a#b<q> # c *)
+Definition ex_line_q : str := [107; 32; 61; 32; 34; 97; 35; 98; 34; 32; 35; 32; 99]%N.
+(* a<q>#b = <q>x<q>   -- accepted with the key  a<q>#b : a key outside good_key *)
+Definition ex_line_loose_key : str := [97; 34; 35; 98; 32; 61; 32; 34; 120; 34]%N.
